@@ -98,3 +98,44 @@ func GoodClose(c chan int, n int) {
 	}
 	close(c)
 }
+
+// STEP-ONLY
+type Stepper interface {
+	Step()
+	Peek() int
+}
+
+type cnt struct{ n *int }
+
+func (c cnt) Step()     { *c.n++ }
+func (c cnt) Peek() int { *c.n += 0; return *c.n }
+
+func BadDriver(ss []Stepper) int {
+	t := 0
+	for _, s := range ss {
+		s.Step()
+		t += s.Peek()
+	}
+	return t
+}
+
+type cnt2 struct{ n *int }
+
+func (c cnt2) Step()     { *c.n++ }
+func (c cnt2) Peek() int { return *c.n }
+
+type Stepper2 interface {
+	Step()
+	Peek2() int
+}
+
+func (c cnt2) Peek2() int { return *c.n }
+
+func GoodDriver(ss []Stepper2) int {
+	t := 0
+	for _, s := range ss {
+		s.Step()
+		t += s.Peek2()
+	}
+	return t
+}
